@@ -388,7 +388,7 @@ func KernelMounts(prefix string) ([]string, error) {
 	defer fd.Close()
 	var res []string
 	sc := bufio.NewScanner(fd)
-	sc.Buffer(make([]byte, 1<<20), 1<<20)
+	sc.Buffer(make([]byte, 0, 16<<10), 1<<20)
 	p := strings.TrimRight(prefix, "/") + "/"
 	for sc.Scan() {
 		fs := strings.Fields(sc.Text())
